@@ -156,7 +156,18 @@ func c14Kinds() []c14Kind {
 				r["id_token"] = p[0] + "." + vfB64([]byte(`<html>`)) + "." + p[2]
 			}
 		}},
+		{Name: "missing-id_token+expires_in", Must: true, Only: []string{"token.code"}, Mutate: func(r map[string]interface{}) { delete(r, "id_token"); delete(r, "expires_in") }},
 		// not faults by the statement: both outcomes accepted
+		{Name: "missing-id_token+expires_in-on-refresh", Only: []string{"token.refresh"}, Mutate: func(r map[string]interface{}) { delete(r, "id_token"); delete(r, "expires_in") }},
+		{Name: "missing-id_token+refresh_token-on-refresh", Only: []string{"token.refresh"}, Mutate: func(r map[string]interface{}) { delete(r, "id_token"); delete(r, "refresh_token") }},
+		{Name: "missing-expires_in", Only: tok, Mutate: func(r map[string]interface{}) { delete(r, "expires_in") }},
+		{Name: "only-access_token", Only: []string{"token.refresh"}, Mutate: func(r map[string]interface{}) {
+			for k := range r {
+				if k != "access_token" {
+					delete(r, k)
+				}
+			}
+		}},
 		{Name: "missing-id_token-on-refresh", Only: []string{"token.refresh"}, Mutate: func(r map[string]interface{}) { delete(r, "id_token") }},
 		{Name: "missing-token_type", Only: tok, Mutate: func(r map[string]interface{}) { delete(r, "token_type") }},
 		{Name: "wrong-content-type-valid-body", Reply: func(pos string, cx *c14Ctx) *vfIdPReply {
@@ -305,6 +316,7 @@ type c14World struct {
 	lastMu sync.Mutex
 	kidSeq int
 	sinceClean int
+	idp2   *vfIdP // extra JWT issuer (instance "extra")
 }
 
 type c14Stale struct {
@@ -524,6 +536,9 @@ func (r *c14Runner) loginCase(cw *c14World, c c14Case) {
 	if c.Flow == "login-profile" {
 		id.Email, id.PreferredUsername = "", "" // the token lacks them: the proxy has to ask the profile endpoint
 	}
+	if c.Flow == "login-thin" {
+		id.PreferredUsername, id.Groups = "", nil // a "thin" ID token (sub + e-mail only): the optional claims are looked up at the profile endpoint
+	}
 	cx := &c14Ctx{Sub: sub, Email: email, Issuer: cw.w.IdP.Issuer, Profile: profile}
 	cx.JWKS = []jose.JSONWebKey{{Key: &vfKeyA.PublicKey, KeyID: "k1", Algorithm: "RS256", Use: "sig"}}
 	var claimsSeen map[string]interface{}
@@ -593,6 +608,11 @@ func (r *c14Runner) loginCase(cw *c14World, c c14Case) {
 	}
 	session := obs.session() || len(obs.Cookies) > 0
 	must := (c.kind != nil && c.kind.Must) || (c.typed != nil && c.typed.Must)
+	if c.Flow == "login-thin" && c.Pos == "userinfo" && strings.HasPrefix(c.Kind, "json-") {
+		// a well-formed profile answer without data while the token itself has the mandatory claims: the login may
+		// stand on the token alone (optional claims empty)
+		must = false
+	}
 	switch {
 	case obs.Panic != "":
 		r.violation("c14:panic", "panic: "+vfTrunc(obs.Panic, 300), cw, p, c, fired, steps, obs, claims)
@@ -710,6 +730,9 @@ func (r *c14Runner) bearerCase(cw *c14World, c c14Case) {
 	if c.typed != nil {
 		if c.typed.Azp {
 			claims["azp"] = "cid"
+		}
+		if c.Flow == "bearer-extra-issuer-typed-claims" {
+			claims["iss"], claims["aud"] = cw.idp2.Issuer, "aud2" // a token of the extra JWT issuer (same signing key, other issuer / audience)
 		}
 		c.typed.Set(claims)
 	} else {
@@ -852,6 +875,12 @@ func (r *c14Runner) refreshCase(cw *c14World, c c14Case) {
 		claims["email"] = refreshedEmail
 		if c.Pos == "userinfo" {
 			delete(claims, "email")
+		}
+		if c.Flow == "refresh-thin" {
+			// thin refreshed ID token: e-mail present, optional claims only at the profile endpoint
+			claims["email"] = refreshedEmail
+			delete(claims, "preferred_username")
+			delete(claims, "groups")
 		}
 		if nonce != nil {
 			claims["nonce"] = nonce
@@ -1012,7 +1041,7 @@ func (r *c14Runner) startupCase(cw *c14World, c c14Case) {
 
 func TestVerif_C14(t *testing.T) {
 	run := vfNewRun(t, "C14", "fault_enumeration")
-	run.SetRule("flows {login (all claims in the token; key-set fetch forced by a new key id), login with profile lookup, bearer token under a new key id, refresh (token / key-set / profile position), " +
+	run.SetRule("flows {login (all claims in the token; key-set fetch forced by a new key id), login with profile lookup (e-mail only at the profile endpoint), login with a thin ID token (optional claims only at the profile endpoint), bearer token under a new key id, refresh (token / key-set / profile position), refresh with a thin ID token, wrongly typed claims also in bearer tokens of an extra JWT issuer, " +
 		"refresh with an expired old ID token (re-validation), start-up discovery} x every identity-provider call position x response kind (structural faults, tolerated oddities, wrongly typed claims); " +
 		"each case is followed by a clean login on the same instance. cell = (flow, position, kind, instance); non-trivial = the proxy actually made the call that was faulted")
 	run.Assume("the proxy's HTTP client has no timeout of its own (verified: stalls end when the provider answers or resets); stalls are therefore followed by a reset / a 500",
@@ -1044,7 +1073,9 @@ func TestVerif_C14(t *testing.T) {
 		{"login-newkid", []string{"token.code", "jwks"}},
 		{"login-profile", []string{"token.code", "userinfo"}},
 		{"bearer-newkid", []string{"jwks"}},
+		{"login-thin", []string{"userinfo"}},
 		{"refresh", []string{"token.refresh", "jwks", "userinfo"}},
+		{"refresh-thin", []string{"userinfo"}},
 		{"refresh-old-token-expired", []string{"token.refresh"}},
 		{"startup", []string{"discovery"}},
 	}
@@ -1082,17 +1113,23 @@ func TestVerif_C14(t *testing.T) {
 	}
 	for ti := range typed {
 		ty := &typed[ti]
-		for fi, flow := range []string{"login-typed-claims", "refresh-typed-claims", "bearer-typed-claims"} {
+		for fi, flow := range []string{"login-typed-claims", "refresh-typed-claims", "bearer-typed-claims", "bearer-extra-issuer-typed-claims"} {
 			if ty.LoginOnly && fi > 0 {
 				continue
 			}
+			if fi == 3 && ty.Azp {
+				continue
+			}
 			stores := []string{"cookie", "redis"}
-			if !thorough || fi == 2 {
+			if !thorough || fi >= 2 {
 				stores = []string{stores[(ti+fi+int(run.Env.Seed))%2]}
 			}
 			for _, s := range stores {
 				if ty.Azp {
 					s = "azp"
+				}
+				if fi == 3 {
+					s = "extra"
 				}
 				cases = append(cases, c14Case{Flow: flow, Pos: "claims", Kind: ty.Name, Store: s, typed: ty})
 			}
@@ -1119,6 +1156,9 @@ func TestVerif_C14(t *testing.T) {
 		cw.px["cookie"] = w.MustProxy(common...)
 		cw.px["redis"] = w.MustProxy(append([]string{"--session-store-type=redis", "--redis-connection-url=" + w.RedisURL()}, common...)...)
 		cw.px["azp"] = w.MustProxy(append([]string{"--oidc-audience-claim=azp"}, common...)...)
+		cw.idp2 = vfNewIdP()
+		defer cw.idp2.Close()
+		cw.px["extra"] = w.MustProxy(append([]string{"--extra-jwt-issuers=" + cw.idp2.Issuer + "=aud2"}, common...)...)
 		worlds[i] = cw
 	}
 	// phase 1: stale sessions (global clock mock; nothing else runs)
@@ -1127,7 +1167,7 @@ func TestVerif_C14(t *testing.T) {
 		cw := worlds[i]
 		for _, c := range per[i] {
 			switch c.Flow {
-			case "refresh", "refresh-typed-claims":
+			case "refresh", "refresh-thin", "refresh-typed-claims":
 				if c.Store == "azp" {
 					cw.w.IdP.Set(func(cf *vfIdPCfg) {
 						cf.MintOverride = func(g string, cl map[string]interface{}) (string, bool) {
@@ -1160,11 +1200,11 @@ func TestVerif_C14(t *testing.T) {
 		cw := worlds[i]
 		for _, c := range per[i] {
 			switch c.Flow {
-			case "login-newkid", "login-profile", "login-typed-claims":
+			case "login-newkid", "login-profile", "login-thin", "login-typed-claims":
 				r.loginCase(cw, c)
-			case "bearer-newkid", "bearer-typed-claims":
+			case "bearer-newkid", "bearer-typed-claims", "bearer-extra-issuer-typed-claims":
 				r.bearerCase(cw, c)
-			case "refresh", "refresh-typed-claims", "refresh-old-token-expired":
+			case "refresh", "refresh-thin", "refresh-typed-claims", "refresh-old-token-expired":
 				r.refreshCase(cw, c)
 			}
 			cw.w.Up.Reset()
